@@ -205,7 +205,7 @@ def run(tier, seed):
     wd = vlib.workdir("c14")
     try:
         q = tier == "quick"
-        res = vlib.tlc_mc("MC_Pipe", "MC_Pipe.cfg", wd, workers=8, constants={"MaxOps": "5" if q else "7"}, timeout=3000)
+        res = vlib.tlc_mc("MC_Pipe", "MC_Pipe.cfg", wd, workers=8, constants={"MaxOps": "8" if q else "12"}, timeout=3000)
         vlib.require_mc_ok(res, "MC_Pipe")
         mbt = vlib.tlc_mc("MC_Pipe", "MC_Pipe.cfg", wd, workers=1, coverage=False, constants={"MaxOps": "4", "DumpEdges": "TRUE"}, tag="mbt")
         vlib.require_mc_ok(mbt, "MC_Pipe (edges)")
